@@ -739,6 +739,8 @@ class StoredFieldFacet(FacetType):
         def keys_for(self, matcher, docid):
             d = self.segment_searcher.stored_fields(docid)
             value = d.get(self.fieldname)
+            if value is None:
+                return [None]
             if self.split_fn:
                 return self.split_fn(value)
             else:
